@@ -145,11 +145,15 @@ def k_histories(ctx):
             # envelope before and after a reset
             n_ = p["n"]
             sub = "minx %d %s" % (n_ - 1, " ".join(str(i) for i in range(1, n_)))
+            sub2 = "minx %d %s" % (n_ - 1, " ".join(str(i) for i in range(2, n_ + 1)))      # another subset, not a superset of the first
+            sub3 = "minx 2 1 %d" % n_
             hs += [[sub, "x", "minxall", "qxx 1 %d" % n_, "x", "qxx 2 2"],
                    ["minxall", "x", sub, "qxx 1 %d" % n_, "x"],
                    [sub, "defect", "minxall", "x", "q0xx 1 %d" % n_],
                    ["qxx 1 %d" % n_, "qxx %d 1" % n_, "qxx 2 %d" % n_, "reset", "qxx 1 %d" % n_, "qxx 2 %d" % n_],
-                   ["x", "minxall", "x", sub, "x", "minxall", "qxx 1 1"]]
+                   ["x", "minxall", "x", sub, "x", "minxall", "qxx 1 1"],
+                   [sub, "x", sub2, "x", "qxx 1 1", sub3, "x", "qxx 2 2"],
+                   [sub3, "qxx 1 %d" % n_, "reset", sub2, "x", "qxx 1 %d" % n_]]
             if pi < 2:
                 # exhaustive short histories over a small alphabet
                 n = p["n"]
